@@ -2,6 +2,7 @@ import FV.Props.Catalog
 import FV.Ops
 import FV.FlexChain
 import FV.EmplaceAll
+import FV.EmplaceFlexContent
 /-! # C12 — FlexVec behaves as a sequence of independently sized items under every history
 
 `Chain d l os 0 data items` says that the bytes `data` of a FlexVec (the view, floored to the alignment) are exactly the
@@ -57,14 +58,42 @@ theorem emplaceSpec_of_wt (it : Ty) (h : it.WF) (i : Init) (hw : InitWT it i) : 
     exact ⟨⟨s.bytes, .error ⟨.badAlign, 0⟩⟩, by simp only [emplace, hc], rfl, fun hh => by cases hh⟩
 
 /-- **push appends exactly one item, or changes nothing.** On `Ok` the sequence is the old one followed by one new item (all
-earlier slots and images unchanged); on any `Err` the sequence is exactly the old one. Never a fault; length kept. -/
+earlier slots and images unchanged) whose image is what the item's emplacer wrote into the new slot's payload; on any `Err` the
+sequence is exactly the old one. Never a fault; length kept. -/
 theorem C12_push (it : Ty) (h : it.WF) (l : LenTy) (hl : l.Law) (i : Init) (hw : InitWT it i) (data : Slice)
     (items : List (Nat × Bytes)) (hc : Chain it.dict l (max l.size it.dict.align) 0 data items)
     (hend : data.len % max l.align it.dict.align = 0) :
     ∃ o, flexPush it l i data = .ok o ∧ o.bytes.length = data.len ∧
-      (o.res = .ok () → ∃ p img, Chain it.dict l (max l.size it.dict.align) 0 ⟨data.addr, o.bytes⟩ (items ++ [(p, img)])) ∧
+      (o.res = .ok () → ∃ p ob z,
+        emplace it i ⟨data.addr + p + max l.size it.dict.align, data.bytes.drop (p + max l.size it.dict.align)⟩ = .ok ⟨ob, .ok ()⟩ ∧
+        it.dict.sizeV ⟨data.addr + p + max l.size it.dict.align, ob⟩ = .ok z ∧
+        Chain it.dict l (max l.size it.dict.align) 0 ⟨data.addr, o.bytes⟩ (items ++ [(p, ob.take z)])) ∧
       (∀ e, o.res = .error e → Chain it.dict l (max l.size it.dict.align) 0 ⟨data.addr, o.bytes⟩ items) :=
   flexPush_spec it l (Ty.law it h) (Ty.frameLaw it h) hl i (emplaceSpec_of_wt it h i hw) data items hc hend
+
+/-- **the pushed item has the specified content.** The image that `push` appends (see `C12_push`) reads, on its own bytes, as
+exactly the content the initialiser specifies; the images of the earlier items are untouched, so their contents are too. -/
+theorem C12_pushed_item_content (it : Ty) (h : it.WF) (i : Init) (hw : InitWT it i) (payload : Slice) (ob : Bytes) (z : Nat)
+    (hem : emplace it i payload = .ok ⟨ob, .ok ()⟩) (hz : it.dict.sizeV ⟨payload.addr, ob⟩ = .ok z) :
+    (it.dict.walk ⟨payload.addr, ob.take z⟩).map Val.strip = specV it i := by
+  unfold emplace at hem
+  cases hck : checkAlignMin it.dict.align it.dict.minSize payload with
+  | ok u =>
+    obtain ⟨hal, hlen⟩ := checkAlignMin_ok.1 hck
+    simp only [hck] at hem
+    obtain ⟨o, ho, hok, hcon⟩ := emplaceU_content i it h hw payload hal hlen
+    rw [hem] at ho; cases ho
+    have hv := hok.valid rfl
+    have hcont := hcon rfl
+    have hol : ob.length = payload.len := hok.len
+    obtain ⟨z', hz', hzle, _, _⟩ := (Ty.frameLaw it h).size_ok ⟨payload.addr, ob⟩ hal (by simp only [Slice.len, hol]; exact hlen) hv
+    rw [hz] at hz'; cases hz'
+    rw [← hcont]
+    exact walk_loc it.dict (Ty.frameLaw it h) (Ty.walkLaw it h) ⟨payload.addr, ob⟩ z hal (by simp only [Slice.len, hol]; exact hlen) hv hz
+      ⟨payload.addr, ob.take z⟩ rfl (by simp only [Slice.len, List.length_take] at hzle ⊢; omega)
+      (by simp only [List.take_take, Nat.min_self])
+  | err e => simp only [hck, Res.ok.injEq, EO.mk.injEq] at hem; cases hem.2
+  | fault f => simp only [hck] at hem; cases hem
 
 /-! ### histories -/
 inductive FOp where
@@ -123,7 +152,7 @@ theorem C12_history (it : Ty) (h : it.WF) (l : LenTy) (hl : l.Law) :
       obtain ⟨o, h1, h1l, hok, herr⟩ := C12_push it h l hl i (hwt i (by simp)) data items hc hend
       cases hres : o.res with
       | ok u =>
-        obtain ⟨p, img, hc1⟩ := hok hres
+        obtain ⟨p, ob, z, _, _, hc1⟩ := hok hres
         obtain ⟨b', items', hr, hl', hc', ha⟩ := ih hwt' ⟨data.addr, o.bytes⟩ _ hc1 (by simp only [Slice.len, h1l]; exact hend)
         exact ⟨b', items', by simp only [frun, fstep, h1, Res.bind_ok, hr], by rw [hl']; exact h1l, hc',
           .cons (Or.inr ⟨_, rfl⟩) ha⟩
